@@ -53,7 +53,14 @@ std::string g_case;
   std::fflush(stdout);
   std::_Exit(0);
 }
-void watchdog(int ms, const char* what) {
+// wall-clock bounds are multiplied by VERIF_TIME_SCALE (default 6): on a loaded machine a starved io thread must
+// not be reported as a lost completion; a bound only costs time when the awaited event never happens
+int time_scale() {
+  static int k = [] { const char* e = std::getenv("VERIF_TIME_SCALE"); int v = e ? std::atoi(e) : 6; return v < 1 ? 1 : v; }();
+  return k;
+}
+void watchdog(int ms0, const char* what) {
+  int ms = ms0 * time_scale();
   std::thread([ms, what] {
     std::this_thread::sleep_for(std::chrono::milliseconds(ms));
     finish(std::string("HANG: ") + what, "no progress within " + std::to_string(ms) + " ms");
@@ -77,10 +84,11 @@ int map_count() {
   }
   return n;
 }
-bool wait_for(const std::function<bool()>& p, int ms) {
+bool wait_for_raw(const std::function<bool()>& p, int ms) {
   for (int i = 0; i < ms; ++i) { if (p()) return true; std::this_thread::sleep_for(1ms); }
   return p();
 }
+bool wait_for(const std::function<bool()>& p, int ms) { return wait_for_raw(p, ms * time_scale()); }
 
 struct Result {
   std::atomic<int> n{0};
@@ -258,11 +266,12 @@ void case_cancel(bool prestop) {
   auto op1 = unifex::connect(async_read_some_at(rf, 0, span<std::byte>((std::byte*)b1, 8)), io_rcv{&r1, src.get_token()});
   unifex::start(op1);
   if (!prestop) { std::this_thread::sleep_for(20ms); src.request_stop(); }
-  if (!wait_for([&] { return r1.n.load() == 1; }, 1500)) {
+  // pre-stopped start is a recorded finding (the operation stays parked): keep its bound short and unscaled
+  if (!(prestop ? wait_for_raw([&] { return r1.n.load() == 1; }, 1500) : wait_for([&] { return r1.n.load() == 1; }, 1500))) {
     // does it complete once data arrives? (then the stop request was simply ignored)
     (void)::write(fd[1], "hello", 5);
     bool later = wait_for([&] { return r1.n.load() == 1; }, 1500);
-    finish(std::string("LOST: ") + (prestop ? "pre-stopped" : "stopped") + " read did not complete with done within 1.5 s" +
+    finish(std::string("LOST: ") + (prestop ? "pre-stopped" : "stopped") + " read did not complete with done within its bound" +
            (later ? " (it completed only when data arrived: " + describe(r1) + ", " + std::to_string(pipe_bytes(fd[0])) + " bytes left in the pipe)" : " (nor after data arrived)"),
            describe(r1));
   }
